@@ -825,8 +825,8 @@ def run(chk):
     if mfail and not chk.violations:
         chk.report_unproved('extraction', {'extractor': 'methods_cursor', 'failed': mfail})
     gfail = {k: v for k, v in (((chk.extract_report or {}).get('parts', {}).get('methods_group') or {}).get('failed') or {}).items()
-             if k.split('::')[0] in ('model-II', 'flat_group_base', 'nested_group_base', 'entry_base', 'input_iterator',
-                                     'cursor_range')}
+             if k.startswith('II:') or k in ('model-II', 'sbepp.hpp', 'flat_group_base', 'nested_group_base', 'entry_base',
+                                             'input_iterator', 'cursor_range')}
     if gfail and not chk.violations:
         chk.report_unproved('extraction', {'extractor': 'methods_group', 'failed': gfail})
     chk.assumptions += [
